@@ -62,6 +62,9 @@ def _strategy(draw):
     elif r == 1:
         # a structured asset whose link to its external node is not active in the horizon while assets at the internal
         # node trade with each other (all its variables are internal then)
+        if not any(a["type"] == "structured" for a in spec["assets"]):
+            cx_ = gen.Cx(spec["grid"], build.all_nodes(spec), spec["prices"])
+            spec["assets"].insert(0, gen.a_structured(draw, cx_, "zs", with_window=False))
         for a in spec["assets"]:
             if a["type"] == "structured":
                 link = a["assets"][1]
